@@ -114,6 +114,11 @@ def check(ctx: Ctx) -> None:
     # must start empty, or its next deleting rollback removes the files of the snapshot that did become durable
     from .c01 import r5 as c01_r5
     c01_r5(ctx, "C04.R10")
+    # "state equal to the last acknowledged commit": a cache of parsed metadata consulted by refresh() must be keyed by the unique
+    # file name the pointer resolved to - a failed commit's v<N+1> file and the winner's v<N+1> file share the version number
+    from .common import memo_key_covers_computation
+    memo_key_covers_computation(ctx, "C04.R11", ("metadata_manager", "snapshot_manager", "transaction"),
+                                "(a failed commit's file and the winner's file share one version number)")
 
 
 # ----------------------------------------------------------------------- R1
